@@ -180,6 +180,9 @@ def common_obligations(ctx, repo, pid):
         # INDEXTRUTH rule: emptiness of an index array must not be tested through the index values
         from .rules.params import check_index_truth
         check_index_truth(ctx, repo, pid, scope, report_modules=mods)
+        # ARCDOM rule: arccos / arcsin of a floating-point product must be clipped or rounded into [-1, 1]
+        from .rules.params import check_arc_domain
+        check_arc_domain(ctx, repo, pid, scope, report_modules=mods)
 
 
 def run_sentinels(ctx: Ctx, pid: str):
